@@ -33,6 +33,9 @@ type MState struct {
 	Until   int64
 	NextRun int64
 	Attempt int
+	// RelLo != 0: the message was released by lease expiry at an instant the
+	// history does not pin down; its next_run_at lies in [RelLo, NextRun].
+	RelLo int64
 }
 
 type Kind string
@@ -177,7 +180,9 @@ func Step(st MState, in In, out Out) (bool, MState) {
 			return false, st
 		}
 		if cur && expired {
-			return true, MState{Phase: PQueued, Attempt: st.Attempt, NextRun: in.Now}
+			// the expired lease was released by this call or by an earlier sweep
+			// (any store call after st.Until may have done it)
+			return true, MState{Phase: PQueued, Attempt: st.Attempt, NextRun: in.Now, RelLo: st.Until}
 		}
 		return true, st
 	case EvCancel:
@@ -211,7 +216,10 @@ func Step(st MState, in In, out Out) (bool, MState) {
 			if out.State == "leased" && out.NextRun == st.Until {
 				return true, st
 			}
-			return out.State == "queued" && out.NextRun <= in.Now, st
+			return out.State == "queued" && out.NextRun <= in.Now && out.NextRun >= st.Until, st
+		}
+		if st.Phase == PQueued && st.RelLo != 0 {
+			return out.State == "queued" && out.NextRun >= st.RelLo && out.NextRun <= st.NextRun, st
 		}
 		return out.State == st.Phase.String() && out.NextRun == st.NextRun, st
 	}
